@@ -66,8 +66,12 @@ func loadVariants(prop string) []variant {
 		var m struct {
 			ID       string   `json:"id"`
 			Relevant []string `json:"relevant_properties"`
+			Quiet    *bool    `json:"quiet_variant"` // false: a refactoring some rule still does not recognise (DESIGN section 8)
 		}
 		if json.Unmarshal(b, &m) != nil {
+			continue
+		}
+		if m.Quiet != nil && !*m.Quiet {
 			continue
 		}
 		for _, r := range m.Relevant {
